@@ -1,5 +1,10 @@
-(* Refinement of DataModel (repaired behaviour) to the abstract array of ArraySpec: a forward
-   simulation for every operation, hence equal outcomes for every history (property C15). *)
+(* Refinement of DataModel (repaired behaviour) to the abstract array of ArraySpec: the model's
+   type / dimension function decides the rule the specification states; a forward simulation for
+   every operation, hence equal outcomes for every history (property C15).  The lemmas about
+   `step` (sim_step, sim_trace, ...) are about the model function that completes short caller
+   vectors with a default; the `_chk` lemmas are about `step_chk`, where reading past the end of a
+   caller's vector is a fault, and carry the premise that the caller's vectors have the documented
+   length (ArraySpec.vec_ok / vecs_ok). *)
 Require Import List ZArith Bool Lia.
 Require Import LV.Data.DataModel LV.Data.ArraySpec LV.Data.DataProofs.
 Import ListNotations.
@@ -10,6 +15,49 @@ Ltac bd :=
   | |- context [Nat.leb ?a ?b] => destruct (Nat.leb_spec a b)
   | |- context [Nat.eqb ?a ?b] => destruct (Nat.eqb_spec a b)
   end; cbn [andb orb negb].
+
+(* ---------------------------------------------------------------- the type / dimension rule *)
+(* the decision procedure of the specification decides the relation written from the manual *)
+Lemma type_rule_spec t r c : type_rule t r c = true <-> dims_fit t r c.
+Proof.
+  split.
+  - unfold type_rule. destruct t; cbn [shape_of]; intros H;
+      try (apply Nat.eqb_eq in H; subst);
+      try (apply andb_true_iff in H; destruct H as [H1 H2]; apply Nat.eqb_eq in H1, H2; subst).
+    + apply fit_undefined.
+    + apply fit_n_port. left. reflexivity.
+    + apply fit_two_port. cbn. tauto.
+    + apply fit_two_port. cbn. tauto.
+    + apply fit_n_port. right. left. reflexivity.
+    + apply fit_n_port. right. right. reflexivity.
+    + apply fit_two_port. cbn. tauto.
+    + apply fit_two_port. cbn. tauto.
+    + apply fit_two_port. cbn. tauto.
+    + apply fit_two_port. cbn. tauto.
+    + apply fit_zin.
+  - intros H. destruct H as [r c|t n H|t H|n].
+    + reflexivity.
+    + destruct H as [->|[->| ->]]; cbn; apply Nat.eqb_refl.
+    + cbn in H. destruct H as [<-|[<-|[<-|[<-|[<-|[<-|[]]]]]]]; reflexivity.
+    + reflexivity.
+Qed.
+
+(* the model's rule (DataModel.validate_type, read from validate_type of vnadata_alloc.c) is the
+   manual's rule *)
+Lemma validate_type_is_manual_rule t r c : validate_type t r c = type_rule t r c.
+Proof. destruct t; reflexivity. Qed.
+
+Lemma validate_type_manual t r c : validate_type t r c = true <-> dims_fit t r c.
+Proof. rewrite validate_type_is_manual_rule. apply type_rule_spec. Qed.
+
+(* the rule is not trivial: each clause accepts and refuses something *)
+Example dims_fit_examples :
+  dims_fit VS 3 3 /\ ~ dims_fit VS 2 3 /\ dims_fit VH 2 2 /\ ~ dims_fit VH 3 3 /\ ~ dims_fit VT 1 1 /\
+  dims_fit VZIN 1 4 /\ dims_fit VZIN 1 0 /\ ~ dims_fit VZIN 2 2 /\ dims_fit VUNDEF 2 3 /\ dims_fit VY 0 0.
+Proof.
+  repeat split; try (apply type_rule_spec; reflexivity);
+    intros H; apply type_rule_spec in H; discriminate H.
+Qed.
 
 Section Refine.
 Variable V : Type.
@@ -111,7 +159,7 @@ Proof.
          set_filetype, set_format, set_fprecision, set_dprecision, sfail, cell_index, cells, ports,
          a_cells, a_ports;
   arr_cbn; destruct (per_f V d) eqn:Epf; split_ir;
-  try (destruct (vpt_of_Z t) eqn:Et); repeat split_if1; arr_cbn; intros NF;
+  try (destruct (vpt_of_Z t) eqn:Et); rewrite ?validate_type_is_manual_rule; repeat split_if1; arr_cbn; intros NF;
   try (contradiction NF; reflexivity); try discriminate;
   (split; [reflexivity | upd_ref Efv Edat]).
 Qed.
@@ -173,7 +221,8 @@ Proof.
   destruct (Z.ltb_spec c 0); [destruct (Z.leb_spec 0 r), (Z.leb_spec 0 c); try lia; reflexivity|].
   destruct (Z.ltb_spec f 0); [destruct (Z.leb_spec 0 r), (Z.leb_spec 0 c), (Z.leb_spec 0 f); try lia; reflexivity|].
   destruct (Z.leb_spec 0 r), (Z.leb_spec 0 c), (Z.leb_spec 0 f); try lia. cbn [andb].
-  destruct (validate_type t (Z.to_nat r) (Z.to_nat c)); cbn [negb andb]; [|reflexivity].
+  rewrite validate_type_is_manual_rule.
+  destruct (type_rule t (Z.to_nat r) (Z.to_nat c)); cbn [negb andb]; [|reflexivity].
   cbn [q_d40 fixed].
   destruct (Z.ltb_spec INT_MAX (Z.of_nat (Z.to_nat r) * Z.of_nat (Z.to_nat c)));
     destruct (Z.leb_spec (Z.of_nat (Z.to_nat r) * Z.of_nat (Z.to_nat c)) INT_MAX); try lia; [reflexivity|].
@@ -296,4 +345,158 @@ Proof.
   congruence.
 Qed.
 
+(* ---------------------------------------------------------------- type / dimension rules enforced *)
+(* every reachable object has dimensions that fit its type ... *)
+Lemma reachable_dims_fit d : reachable V vzero vdef fixed d -> dims_fit (ty V d) (rows V d) (cols V d).
+Proof.
+  intros R. apply inv_reachable in R. destruct R as (_ & _ & _ & _ & Hv & _).
+  apply validate_type_manual. exact Hv.
+Qed.
+
+(* ... because resize (hence init) and set_type accept a request exactly when the type code is
+   one of the eleven, the dimensions are not negative, fit the type and rows * columns fits an int *)
+Lemma resize_accepts_iff d tz r c f : Inv d ->
+  (o_ret V (snd (stepf d (OResize V tz r c f))) = ROk <->
+   exists t, vpt_of_Z tz = Some t /\ (0 <= r)%Z /\ (0 <= c)%Z /\ (0 <= f)%Z /\
+             dims_fit t (Z.to_nat r) (Z.to_nat c) /\ (r * c <= INT_MAX)%Z).
+Proof.
+  intros HI. cbn [DataModel.step]. pose proof (resize_dich d tz r c f HI) as D.
+  unfold resize_cond in D. destruct (vpt_of_Z tz) as [t|].
+  2:{ rewrite D. split; [discriminate|intros (t & Ht & _); discriminate Ht]. }
+  destruct (Z.leb_spec 0 r), (Z.leb_spec 0 c), (Z.leb_spec 0 f); cbn [andb] in D;
+    try (rewrite D; split; [discriminate|intros (t' & _ & ? & ? & ? & _); lia]).
+  destruct (type_rule t (Z.to_nat r) (Z.to_nat c)) eqn:Et; cbn [andb] in D.
+  2:{ rewrite D. split; [discriminate|intros (t' & Ht' & _ & _ & _ & F & _)].
+      injection Ht' as <-. apply type_rule_spec in F. congruence. }
+  rewrite !Z2Nat.id in D by assumption.
+  destruct (Z.leb_spec (r * c) INT_MAX).
+  - destruct D as [D _]. rewrite D. split; [intros _|reflexivity].
+    exists t. repeat split; try assumption. apply type_rule_spec. exact Et.
+  - rewrite D. split; [discriminate|intros (t' & _ & _ & _ & _ & _ & ?); lia].
+Qed.
+
+Lemma set_type_accepts_iff d tz :
+  (o_ret V (snd (stepf d (OSetType V tz))) = ROk <->
+   exists t, vpt_of_Z tz = Some t /\ dims_fit t (rows V d) (cols V d)) /\
+  (forall t, vpt_of_Z tz = Some t -> dims_fit t (rows V d) (cols V d) ->
+     ty V (fst (stepf d (OSetType V tz))) = t).
+Proof.
+  cbn [DataModel.step]. unfold set_type. destruct (vpt_of_Z tz) as [t|].
+  2:{ split; [split; [discriminate|intros (t & Ht & _); discriminate Ht]|intros t Ht; discriminate Ht]. }
+  rewrite validate_type_is_manual_rule.
+  destruct (type_rule t (rows V d) (cols V d)) eqn:Et; cbn [fst snd o_ret ok fail].
+  - split; [split; [intros _; exists t; split; [reflexivity|apply type_rule_spec; exact Et]|reflexivity]|].
+    intros t' Ht' _. injection Ht' as <-. reflexivity.
+  - split; [split; [discriminate|intros (t' & Ht' & F); injection Ht' as <-; apply type_rule_spec in F; congruence]|].
+    intros t' Ht' F. injection Ht' as <-. apply type_rule_spec in F. congruence.
+Qed.
+
+(* ---------------------------------------------------------------- caller-supplied vectors *)
+Notation stepc := (DataModel.step_chk V vzero vdef fixed).
+
+(* the documented vector lengths of the specification exclude every over-read of the model *)
+Lemma vec_ok_not_short d a o : refines d a -> vec_ok V a o -> short_vector V d o = false.
+Proof.
+  intros H. open_ref H a. unfold vec_ok, vec_need, a_cells, a_ports. arr_cbn.
+  destruct o; cbn [short_vector]; try reflexivity; unfold cells, ports; intros L;
+    repeat match goal with |- context [in_range ?i ?n] => destruct (in_range i n) end; cbn [andb];
+    try reflexivity; apply Nat.ltb_ge; exact L.
+Qed.
+
+(* ... and conversely: when the call gets as far as the copy (valid indices), a vector shorter
+   than documented is an over-read of the model *)
+Lemma short_vector_not_ok d a o : refines d a -> short_vector V d o = true -> ~ vec_ok V a o.
+Proof.
+  intros H S L. rewrite (vec_ok_not_short d a o H L) in S. discriminate S.
+Qed.
+
+Definition sim_chk (d : vd) (a : arr V) (o : op V) : Prop :=
+  snd (stepc d o) = snd (spec_step a o) /\ refines (fst (stepc d o)) (fst (spec_step a o)).
+
+Theorem sim_chk_step d a o : Inv d -> refines d a -> vec_ok V a o -> sim_chk d a o.
+Proof.
+  intros HI H L. unfold sim_chk, step_chk. rewrite (vec_ok_not_short d a o H L).
+  exact (sim_step d a o HI H).
+Qed.
+
+Fixpoint trace_chk (d : vd) (l : list (op V)) : list (outcome V) :=
+  match l with
+  | [] => []
+  | o :: r => snd (stepc d o) :: trace_chk (fst (stepc d o)) r
+  end.
+
+Theorem sim_chk_trace l : forall d a, Inv d -> refines d a -> vecs_ok V vzero vdef a l ->
+  trace_chk d l = spec_trace V vzero vdef a l /\
+  refines (run_chk V vzero vdef fixed d l) (fold_left (fun s o => fst (spec_step s o)) l a).
+Proof.
+  induction l as [|o l IH]; intros d a HI H L; [split; [reflexivity|exact H]|].
+  destruct L as [Lo Ll].
+  destruct (sim_chk_step d a o HI H Lo) as [E R].
+  destruct (IH _ _ (step_chk_inv V vzero vdef d o HI) R Ll) as [E' R'].
+  cbn [trace_chk spec_trace run_chk fold_left]. split; [rewrite E, E'; reflexivity|exact R'].
+Qed.
+
+(* every history from vnadata_alloc in which each vector handed to a vector setter has the
+   documented length produces exactly the outcomes the abstract array predicts *)
+Theorem data_refines_array_chk l :
+  vecs_ok V vzero vdef (arr_alloc V vzero vdef) l ->
+  trace_chk (vd_alloc V vzero vdef) l = spec_trace V vzero vdef (arr_alloc V vzero vdef) l.
+Proof.
+  intros L. apply sim_chk_trace; [apply inv_alloc| |exact L].
+  unfold refines, ArraySpec.arr_eq, ArraySpec.abs, arr_alloc, vd_alloc. cbn. repeat split; auto.
+Qed.
+
+Lemma arr_eq_sym a b : arr_eq a b -> arr_eq b a.
+Proof.
+  intros (E1 & E2 & E3 & E4 & E5 & Efv & Edat & Ez0 & Efz0 & E6 & E7 & E8 & E9).
+  unfold ArraySpec.arr_eq. repeat split; auto; intros; symmetry.
+  - apply Ez0. congruence.
+  - apply Efz0. congruence.
+Qed.
+
+Lemma arr_eq_trans a b c : arr_eq a b -> arr_eq b c -> arr_eq a c.
+Proof.
+  intros (E1 & E2 & E3 & E4 & E5 & Efv & Edat & Ez0 & Efz0 & E6 & E7 & E8 & E9)
+         (G1 & G2 & G3 & G4 & G5 & Gfv & Gdat & Gz0 & Gfz0 & G6 & G7 & G8 & G9).
+  unfold ArraySpec.arr_eq. repeat split; try congruence; intros.
+  - rewrite Ez0 by assumption. apply Gz0. congruence.
+  - rewrite Efz0 by assumption. apply Gfz0. congruence.
+Qed.
+
+Lemma short_vector_same_dims d1 d2 o :
+  arr_eq (abs d1) (abs d2) -> short_vector V d1 o = short_vector V d2 o.
+Proof.
+  intros (E1 & E2 & E3 & E4 & _). cbn [ArraySpec.abs a_ty a_rows a_cols a_freqs] in *.
+  destruct o; cbn [short_vector]; unfold cells, ports; rewrite ?E2, ?E3, ?E4; reflexivity.
+Qed.
+
+(* two states that satisfy the invariant and have the same abstraction cannot be told apart by any
+   history of operations - whatever the vectors passed (an over-read of a caller's vector depends
+   on the logical dimensions only) *)
+Theorem indistinguishable_chk l : forall d1 d2,
+  Inv d1 -> Inv d2 -> arr_eq (abs d1) (abs d2) -> trace_chk d1 l = trace_chk d2 l.
+Proof.
+  induction l as [|o l IH]; intros d1 d2 I1 I2 E; [reflexivity|].
+  cbn [trace_chk]. pose proof (short_vector_same_dims d1 d2 o E) as S.
+  unfold step_chk. rewrite S. destruct (short_vector V d2 o) eqn:S2; cbn [fst snd].
+  - f_equal. change (trace_chk d1 l = trace_chk d2 l). apply IH; assumption.
+  - destruct (sim_step d1 (abs d2) o I1 E) as [A1 A2].
+    destruct (sim_step d2 (abs d2) o I2 (refines_refl d2)) as [B1 B2].
+    rewrite A1, B1. f_equal.
+    assert (T1 : trace_chk (fst (stepf d1 o)) l = trace_chk (fst (stepf d2 o)) l).
+    { apply IH; [apply step_inv; exact I1|apply step_inv; exact I2|].
+      eapply arr_eq_trans; [exact A2|apply arr_eq_sym; exact B2]. }
+    exact T1.
+Qed.
+
 End Refine.
+
+(* the premise of data_refines_array_chk is met by a history with vector setters *)
+Example vecs_ok_example (V : Type) (vzero vdef : V) :
+  vecs_ok V vzero vdef (arr_alloc V vzero vdef) (example_history V vzero vdef) /\
+  ~ vecs_ok V vzero vdef (arr_alloc V vzero vdef) [OInit V 1 2 2 1; OSetMatrix V 0 [vdef]].
+Proof.
+  split.
+  - cbn. repeat split; repeat constructor.
+  - cbn. intros (_ & H & _). vm_compute in H. lia.
+Qed.
